@@ -60,7 +60,7 @@ func mkCase(cands []font.Aspect, q font.Aspect, path string) narrowCase {
 // ---- the property ----
 
 // checkHook evaluates retainsBestMatches on (cands, q) against the reference.
-func checkHook(t ev.TB, cands []font.Aspect, q font.Aspect) {
+func checkHook(t ev.TB, cands []font.Aspect, q font.Aspect) (want font.Aspect) {
 	var got []int
 	func() {
 		defer func() {
@@ -87,7 +87,7 @@ func checkHook(t ev.TB, cands []font.Aspect, q font.Aspect) {
 			fail("members do not share one stretch/style/weight: %v vs %v", cands[got[0]], cands[idx])
 		}
 	}
-	want := Best(cands, q)
+	want = Best(cands, q)
 	if have := cands[got[0]]; have != want {
 		fail("selected %v, CSS Fonts 5.2 selects %v", have, want)
 	}
@@ -100,6 +100,7 @@ func checkHook(t ev.TB, cands []font.Aspect, q font.Aspect) {
 	if n != len(got) {
 		fail("%d candidates carry the selected aspect but %d were retained", n, len(got))
 	}
+	return want
 }
 
 // ---- public path ----
@@ -211,7 +212,7 @@ type tally struct {
 
 func newTally() *tally { return &tally{labels: map[string]int64{}} }
 
-func classify(cands []font.Aspect, query font.Aspect) (nontrivial bool, labels []string) {
+func classify(cands []font.Aspect, query, best font.Aspect) (nontrivial bool, labels []string) {
 	q := Defaults(query)
 	var st, sl, w bool
 	for _, a := range cands {
@@ -242,11 +243,36 @@ func classify(cands []font.Aspect, query font.Aspect) (nontrivial bool, labels [
 	if query.Stretch == 0 || query.Style == 0 || query.Weight == 0 {
 		labels = append(labels, "query_has_unset_field")
 	}
+	// did a step have to choose between two or more inexact values?
+	if !st && distinct(cands, func(a font.Aspect) float64 { return float64(a.Stretch) }) > 1 {
+		labels = append(labels, "stretch_inexact_with_choice")
+	}
+	if !w {
+		rest := keep(append([]font.Aspect(nil), cands...), func(a font.Aspect) bool { return a.Stretch == best.Stretch && a.Style == best.Style })
+		if distinct(rest, func(a font.Aspect) float64 { return float64(a.Weight) }) > 1 {
+			labels = append(labels, "weight_inexact_with_choice")
+		}
+	}
 	return !(st && sl && w), labels
 }
 
-func (ta *tally) add(cands []font.Aspect, q font.Aspect) {
-	nt, ls := classify(cands, q)
+func distinct(cands []font.Aspect, f func(font.Aspect) float64) int {
+	var seen []float64
+outer:
+	for _, a := range cands {
+		v := f(a)
+		for _, s := range seen {
+			if s == v {
+				continue outer
+			}
+		}
+		seen = append(seen, v)
+	}
+	return len(seen)
+}
+
+func (ta *tally) add(cands []font.Aspect, q, best font.Aspect) {
+	nt, ls := classify(cands, q, best)
 	ta.total++
 	if nt {
 		ta.nontrivial++
@@ -293,18 +319,18 @@ func TestPropEnumerate(t *testing.T) {
 	var counter uint64
 
 	eval := func(cands []font.Aspect) {
-		for qi, q := range queries {
-			checkHook(t, cands, q)
-			ta.add(cands, q)
+		for _, q := range queries {
+			best := checkHook(t, cands, q)
+			ta.add(cands, q, best)
 			counter++
 			if h := mix(counter ^ seed<<32 ^ uint64(shard)<<56); h%50 == 0 {
 				path := publicPaths[(h/50)%3]
 				checkPublic(t, cands, q, path)
 				ta.public++
 				ev.Label(path)
-			}
-			if qi == 17 && ev.WantSample() {
-				ev.Sample(mkCase(cands, q, "hook"))
+				if ev.WantSample() {
+					ev.Sample(mkCase(cands, q, path))
+				}
 			}
 		}
 	}
@@ -370,12 +396,12 @@ func TestPropRandomSets(t *testing.T) {
 			path = publicPaths[p]
 		}
 		c := mkCase(cands, q, path)
-		nt, labels := classify(cands, q)
-		ev.Case(nt, c, append(labels, "random_"+path)...)
 		if ev.WantSample() {
 			ev.Sample(c)
 		}
-		checkHook(t, cands, q)
+		best := checkHook(t, cands, q)
+		nt, labels := classify(cands, q, best)
+		ev.Case(nt, c, append(labels, "random_"+path)...)
 		if path != "hook" {
 			checkPublic(t, cands, q, path)
 		}
